@@ -45,12 +45,28 @@ def mutation(draw):
             'k': draw(st.integers(0, 3))}
 
 
+def aim(case):
+    """Mutations aimed at what the command's outputs make possible: a byte
+    more / less at the end of a block-sized binary file, one character in
+    each of two files whose test names coincide before qualification."""
+    files = case['cmd']['files']
+    for (k, f) in enumerate(files):
+        if f['kind'] == 'binary' and f.get('pad_to'):
+            case['mutations'].append({'target': 'file', 'i': 0, 'j': 0,
+                                      'k': k, 'op': 'addline' if len(
+                                          f['hex']) % 4 else 'delline'})
+        if f['kind'] == 'text' and f['name'].startswith('rep'):
+            case['mutations'].append({'target': 'file', 'op': 'ins',
+                                      'i': 0, 'j': 1, 'k': k})
+    return case
+
+
 def strategy(tier):
     nmut = 4 if tier == 'quick' else 6
     return st.fixed_dictionaries({
         'cmd': G.command_case(tier),
         'mutations': st.lists(mutation(), min_size=2, max_size=nmut),
-    })
+    }).map(aim)
 
 
 def valid(case):
